@@ -9,7 +9,13 @@ class P(vlib.Prop):
             "(shared and deeply nested directories, unowned files, symlinks, recorded hard links, char devices), grouped by the real grouping with "
             "budgets 0..n+2 (quick 150, thorough 2000): the real splitLayers and the real single-layer writer run, every layer is untarred by the "
             "harness's own reader, compared with the model and judged by the layer validator (flatten = single layer, each file exactly once in its "
-            "owner's layer, per-layer parent directories, layer count); digests of every layer are recomputed. Non-trivial: >= 2 packages / >= 3 nodes.")
+            "owner's layer, per-layer parent directories, layer count); digests of every layer are recomputed. e2e stage: build.New + Context.BuildLayers "
+            "in process on tarfs with signed synthrepo packages (shared/nested directories, two packages of one origin, satisfied/unsatisfied/absent "
+            "replaces, hard link, symlink, setuid, xattr, a base-layout package shipping etc/passwd, etc/group, etc/os-release), variants accounts / path "
+            "mutations / contents.build_repositories / extra build repositories, budgets 0..n+1 (quick 48 builds, thorough 160), each configuration also "
+            "built without a layering block: judged by the same verified validator with OWNERSHIP TAKEN FROM THE PACKAGES' OWN FILE LISTS (not from tarfs's "
+            "Package()) and the groups of the real grouping on the packages of the image's installed database; flatten compared modulo the content of "
+            "etc/apko.json; layer count against the budget. Non-trivial: >= 2 packages / >= 3 nodes / >= 5 entries.")
     stages = (
         dict(name="groups", cmd="c10", args=lambda t, s: ["-stage", "groups"]),
         dict(name="split", cmd="c10", args=lambda t, s: ["-stage", "split"]),
@@ -18,25 +24,29 @@ class P(vlib.Prop):
     watch = ("pkg/build/layers.go", "pkg/build/tarball.go", "pkg/build/build.go", "pkg/tarfs/fs.go")
     assumptions = (
         "package names in the installed set are distinct (the model carries the partition reachable from Go's byOrigin/byPackage maps)",
-        "directories carry no owning package (tarfs gives only regular files, symlinks and hard links a tar entry); c10_flatten states it as a hypothesis and the harness reports a directory with an owner",
+        "directories carry no owning package (tarfs gives only regular files, symlinks and hard links a tar entry); c10_flatten states it as a hypothesis (shown necessary) and the harness reports a directory with an owner",
+        "a hard link is owned by its target's package and listed after it (tarfs: a link shares the node; C06: a link before its target is not extractable); c10_flatten states it (LinksWithTarget, shown necessary)",
         "apk.ResolvePackageNameVersionPin / ParseVersion / SatisfiedBy are functions supplied from outside (tabulated from the real functions per case)",
         "InstalledSize sums do not overflow uint64",
         "a budget of 0 yields one group plus the top layer (the code's stated intent), read as within 'budget plus the top layer' only for budget >= 1",
     )
-    level_text = ("Proved, about an executable model of groupByOriginAndSize/merge/replacesGroup and splitLayers/alignStacks, for every package list with distinct "
-                  "names, every budget, every ownership map and every list of entries: c10_group_count (at most max(budget,1) groups, any budget), "
-                  "c10_negative_budget_one_group (the code after fix d47e591; a panic is tagged viol:grouping-panics), c10_groups_partition_partial (each package in exactly one group, for EVERY iteration order of replaceMap and "
-                  "of maps.Values(byOrigin)), c10_each_file_once (the non-directory entries of layer i are exactly, in order, once and unchanged, those whose owner's group "
-                  "is i, top layer for unowned; every entry incl. directories is written unchanged to its own layer), c10_flatten_partial (ingredients of flattening that "
-                  "need no stack invariant). NOT proved: c10_layers_wellformed and the equation of c10_flatten (they need the main-stack/layer-stack chain invariant), "
-                  "same-origin/replaces co-location and full order-invariance of the grouping; these are computed on the implementation's real output on every run by the "
-                  "validators (reference extractor on the concatenated layers = single-layer tree; per-layer parent directories; grouping clauses; 8 repetitions per input). "
-                  "The validators for C10 are boolean transcriptions of LayersOk/GroupsOk without a proved equivalence (C06's validator has one).")
-    level_note = ("trusted: Coq kernel, Go harness/printer and its tar reader; modelled not verified: Go text of layers.go, the apk version functions (tabulated), "
-                  "archive/tar and pgzip; correspondence is differential testing; end-to-end through Context.BuildLayers with real packages is not run")
+    level_text = ("Proved, about an executable model of groupByOriginAndSize/merge/replacesGroup and splitLayers/alignStacks. Grouping, for every package list with "
+                  "distinct names, every budget and every iteration order of the Go maps: c10_group_count, c10_negative_budget_one_group, c10_groups_partition (FULL: "
+                  "each package in exactly one group; same origin => same group; satisfied replaces => same group), c10_group_order_invariant (FULL: the same list "
+                  "of groups, and the same error behaviour, for all orders), c10_groups_ok (GroupsOk for budget <> 0; budget 0 is finding C10-F1). Layers, for every "
+                  "sequence in the envelope WalkSeq (c10_walk_in_envelope: the walk of every tree with distinct child names), every grouping and ownership map: "
+                  "c10_each_file_once (FULL), c10_layers_wellformed (FULL: parents first, no path twice, in every layer), c10_flatten (FULL incl. hard-link entries whose "
+                  "target is an earlier non-directory with the same owner; directories unowned: the reference extractor accepts the layers in order and the single "
+                  "layer and yields the same canonical tree), c10_flatten_walk (= the tree, C06 envelope), c10_layers_ok (LayersOk); both side conditions of c10_flatten "
+                  "are shown necessary by refutations. The validators decide the specification (c10_groups_validator_decides, c10_layers_validator_decides, both <->). "
+                  "On every run the real code's output is compared with the model (groups, split) and judged by these validators (groups, split, e2e).")
+    level_note = ("trusted: Coq kernel, Go harness/printer and its tar reader, synthrepo; modelled not verified: Go text of layers.go, the apk version functions (tabulated), "
+                  "archive/tar and pgzip; correspondence is differential testing; Context.BuildLayers (buildImage, postBuildSetApk, installer, mutateAccounts) is exercised "
+                  "end to end and judged on its outputs, not modelled")
     design_ref = "DESIGN.md 7 C10/C06, Appendix A.3"
     modelled_not_verified = ("groupByOriginAndSize, merge, replacesGroup, splitLayers and alignStacks are modelled by hand (Model/Layers.v); pointer identity of "
-                             "groups and of *file stack elements is modelled by package-name membership and path equality; buildLayers' strategy/base-image checks "
-                             "and Context.BuildLayers are not exercised")
+                             "groups and of *file stack elements is modelled by package-name membership and path equality (the in-place mutation of a stack element's "
+                             "ModTime is unobservable and not modelled); Context.buildLayers itself (strategy/base-image/negative-budget checks, buildImage, "
+                             "postBuildSetApk) is run end to end but has no Coq model")
 
 PROP = P()
